@@ -108,6 +108,10 @@ def main(argv=None):
     from pyvc.lemmas import prove_lemmas
     lemma_obls = prove_lemmas(P.get('lemmas', []), prop, a.tier)
     obligations.update(lemma_obls)
+    if P.get('purity'):
+        from pyvc.source import SourceIndex
+        from pyvc.syntactic import purity_frame
+        obligations.update(purity_frame(SourceIndex(a.repo), P['purity'], 'purity-frame'))
 
     # ------------------------------------------------------------ guards against vacuity
     guard_fail = []
@@ -150,7 +154,7 @@ def main(argv=None):
         violations.append((o, rp))
     # bounded stand-in for what the verifier could not decide (never counted as proved)
     bounded = []
-    if (open_ or unsupported or missing) and P.get('standin'):
+    if (open_ or unsupported or missing or P.get('always_standin')) and P.get('standin'):
         bounded = run_standin(P, prop, a.repo, a.tier, seed)
         for b in bounded:
             if b.get('violation'):
